@@ -1,6 +1,9 @@
 package mc
 
 import (
+	"fmt"
+	"strings"
+
 	"go.etcd.io/raft/v3"
 	pb "go.etcd.io/raft/v3/raftpb"
 )
@@ -57,6 +60,9 @@ func (k *kf1Tracker) OnEvent(w *World, rec *StepRec) []*Violation {
 // ClassifyKnown re-executes a violating path with the finding trackers attached and
 // returns the id of the known finding whose signature the history satisfies ("" if none).
 func ClassifyKnown(sc *Scenario, mf MonitorFactory, path []Event, choices bool, prop string) string {
+	if prop == "C14" {
+		return classifyKF2(sc, mf, path, choices)
+	}
 	async := false
 	for i := 0; i < sc.N; i++ {
 		if sc.cfg(i).Async {
@@ -96,6 +102,39 @@ func attributeKnown(known []KnownFinding, f *Found, j *Job) string {
 				}
 			}
 		}
+	}
+	return ""
+}
+
+// classifyKF2 recognises known finding KF-2: a node that crashed between
+// persisting its first entries and its first hard state restarts at term 0 with a
+// non-empty log and panics ("term should be set when sending MsgPreVoteResp")
+// when it has to reject a pre-vote request.
+func classifyKF2(sc *Scenario, mf MonitorFactory, path []Event, choices bool) string {
+	if len(path) == 0 {
+		return ""
+	}
+	var w *World
+	if choices {
+		w, _ = replayChoices(sc, mf, path[:len(path)-1])
+	} else {
+		w, _ = Replay(sc, mf, path[:len(path)-1])
+	}
+	last := path[len(path)-1]
+	var rec *StepRec
+	if choices {
+		rec = w.applyChoice(last)
+	} else {
+		rec = w.Apply(last)
+	}
+	if rec.Panic == nil || rec.Node < 0 || rec.Pre == nil {
+		return ""
+	}
+	msg := fmt.Sprint(rec.Panic)
+	n := w.Nodes[rec.Node]
+	if strings.Contains(msg, "term should be set when sending MsgPreVoteResp") && rec.Pre.Term == 0 && n.Inc > 0 &&
+		rec.Delivered != nil && rec.Delivered.GetType() == pb.MsgPreVote && rec.PreLog != nil && rec.PreLog.LastTerm() > 0 {
+		return "KF-2"
 	}
 	return ""
 }
